@@ -138,7 +138,20 @@ func cmdSigning(args []string) error {
 		}
 		redirect := r.chance(12)
 		hd := dispatcher.NewHTTPDeliverer(&http.Client{Timeout: 3 * time.Second}, dispatcher.EgressPolicy{Redirects: redirect})
-		hd.Now = func() time.Time { return time.Unix(0, now).UTC() }
+		// one delivery in five runs on a clock that moves with every reading (starting just before the chosen instant): stamp,
+		// signature and the choice of the version must still all belong to ONE of the instants that were read
+		var reads []int64
+		ticking := r.chance(20)
+		if ticking {
+			start, stepNS := now-100*int64(time.Millisecond), pick(r, []int64{300, 700, 1000})*int64(time.Millisecond)
+			hd.Now = func() time.Time {
+				t := start + int64(len(reads))*stepNS
+				reads = append(reads, t)
+				return time.Unix(0, t).UTC()
+			}
+		} else {
+			hd.Now = func() time.Time { return time.Unix(0, now).UTC() }
+		}
 		target := srv.URL + p
 		u, perr := url.Parse(target)
 		cap.mu.Lock()
@@ -169,6 +182,12 @@ func cmdSigning(args []string) error {
 			"requests": got, "status": res.StatusCode, "redirect": redirect}
 		if perr == nil {
 			rec["escapedPath"] = u.EscapedPath()
+		}
+		if ticking {
+			if reads == nil {
+				reads = []int64{}
+			}
+			rec["reads"] = reads
 		}
 		if res.Err != nil {
 			rec["err"] = res.Err.Error()
